@@ -23,6 +23,7 @@ type NodeOpts struct {
 	ApplyDelay   time.Duration        // FSM.Apply takes this long (virtual)
 	ApplyDelayFn func() time.Duration // if set, overrides ApplyDelay (evaluated per call)
 	PersistDelay time.Duration
+	StoreDelayFn func() time.Duration // if set: LogStore.StoreLogs takes this long (virtual), evaluated per call
 	LogOutput    io.Writer
 }
 
